@@ -329,7 +329,28 @@ func Run(c *Case) *vkit.Outcome {
 				saved[sub] = string(got)
 			}
 		}
-		// new appends receive larger offsets
+		// new appends receive larger offsets - also an event that equals the
+		// last one in the log in type, payload and timestamp (a caller that
+		// sends the same event again): nothing makes events unique, it is a
+		// new event
+		if len(events) > 0 && ci%2 == 0 {
+			last := events[len(events)-1]
+			off, err := st.Append(context.Background(), &eventbus.Event{Type: last.Type, Data: append([]byte(nil), last.Data...), Timestamp: last.Timestamp})
+			if err != nil {
+				st.Close()
+				o.Failf("", "%s: appending after reopen failed: %v", desc, err)
+				return o
+			}
+			n, _ := strconv.ParseInt(string(off), 10, 64)
+			if n <= prev {
+				st.Close()
+				o.Failf("", "%s: the first append after reopening - an event equal to the last one in the log - was acknowledged with offset %q, not larger than the last one %d: it is a new event", desc, off, prev)
+				return o
+			}
+			prev = n
+			log = append(log, modelEvent{id: log[len(log)-1].id, off: string(off)})
+			o.Class("first_append_after_reopen_repeats_the_last_event")
+		}
 		probeID := 900000 + ci
 		pd, _ := json.Marshal(map[string]any{"id": probeID})
 		off, err := st.Append(context.Background(), &eventbus.Event{Type: "c14", Data: pd, Timestamp: time.Unix(1, 0)})
